@@ -5,6 +5,7 @@ import (
 	"go/token"
 	"go/types"
 	"sort"
+	"strconv"
 	"strings"
 	"time"
 
@@ -23,6 +24,7 @@ type Program struct {
 	Tier      string
 	ModelsPkg *ssa.Package
 	ApiPath   string // import path of the harness API package
+	Summarize map[string]bool // functions explored as merged pure-callee summaries
 }
 
 type pathEnd struct {
@@ -79,7 +81,7 @@ type AssertEval struct {
 }
 
 type Stats struct {
-	Paths, Steps, Forks, FeasQueries, AssertQueries, Unknown int
+	Paths, Steps, Forks, FeasQueries, AssertQueries, Unknown, CacheHits, Summaries, SummaryHits int
 	FuncsEncoded                                             map[string]int
 	NotEnc                                                   map[string]int
 	Unwind                                                   int
@@ -134,6 +136,12 @@ type Machine struct {
 	methCache  map[methKey]*ssa.Function
 	constCache map[*ssa.Const]Value
 	pkgCache   map[string]*ssa.Package
+	varCache   map[int][]int
+	varByID    map[int]*sym.Term
+	qcache     map[string]bool
+	acache     map[string]smt.Result
+	sumMemo    map[string]*summary
+	sumDepth   int
 
 	writeHook func(c *Cell, old, new Value)
 	readHook  func(c *Cell)
@@ -157,6 +165,7 @@ type fnInfo struct {
 	name      string
 	intrinsic Intrinsic
 	redirect  *ssa.Function
+	summarize bool
 }
 
 type Intrinsic func(m *Machine, fn *ssa.Function, args []Value) Value
@@ -164,7 +173,7 @@ type Intrinsic func(m *Machine, fn *ssa.Function, args []Value) Value
 func NewMachine(p *Program, solver *smt.Solver) *Machine {
 	m := &Machine{P: p, ctx: sym.NewCtx(), solver: solver,
 		strCache: map[string]*Str{}, fnInfo: map[*ssa.Function]*fnInfo{},
-		methCache: map[methKey]*ssa.Function{}, constCache: map[*ssa.Const]Value{}, pkgCache: map[string]*ssa.Package{},
+		methCache: map[methKey]*ssa.Function{}, constCache: map[*ssa.Const]Value{}, pkgCache: map[string]*ssa.Package{}, varCache: map[int][]int{}, varByID: map[int]*sym.Term{}, qcache: map[string]bool{}, acache: map[string]smt.Result{}, sumMemo: map[string]*summary{},
 		MaxSteps: 3_000_000, MaxVisits: 20000, Bounds: map[string]int{}}
 	m.emptyStr = &Str{}
 	m.Stats.FuncsEncoded = map[string]int{}
@@ -338,18 +347,158 @@ func (m *Machine) implied(t *sym.Term) (known bool, val bool) {
 	return false, false
 }
 
-func (m *Machine) feasible(extra *sym.Term) bool {
-	if extra != nil {
-		if k, v := m.implied(extra); k {
-			return v
+func (m *Machine) varsOf(t *sym.Term) []int {
+	if v, ok := m.varCache[t.ID]; ok {
+		return v
+	}
+	seen := map[int]bool{}
+	var out []int
+	var walk func(x *sym.Term)
+	walk = func(x *sym.Term) {
+		if seen[x.ID] {
+			return
+		}
+		seen[x.ID] = true
+		if x.Op == sym.OpVar {
+			out = append(out, x.ID)
+			m.varByID[x.ID] = x
+			return
+		}
+		if sub, ok := m.varCache[x.ID]; ok && len(x.Args) > 0 {
+			for _, v := range sub {
+				if !seen[-v-1] {
+					seen[-v-1] = true
+					out = append(out, v)
+				}
+			}
+			return
+		}
+		for _, a := range x.Args {
+			walk(a)
 		}
 	}
+	walk(t)
+	// dedupe (vars may be reached both directly and via cached sub-results)
+	sort.Ints(out)
+	k := 0
+	for i, v := range out {
+		if i == 0 || v != out[i-1] {
+			out[k] = v
+			k++
+		}
+	}
+	out = out[:k]
+	m.varCache[t.ID] = out
+	return out
+}
+
+func (m *Machine) varTerm(id int) *sym.Term { return m.varByID[id] }
+
+// closure returns the path-condition conjuncts transitively sharing variables with t.
+func (m *Machine) closure(t *sym.Term) []*sym.Term {
+	vs := map[int]bool{}
+	for _, v := range m.varsOf(t) {
+		vs[v] = true
+	}
+	if len(vs) == 0 {
+		return nil
+	}
+	taken := make([]bool, len(m.pc))
+	var out []*sym.Term
+	for changed := true; changed; {
+		changed = false
+		for i, c := range m.pc {
+			if taken[i] {
+				continue
+			}
+			cv := m.varsOf(c)
+			hit := false
+			for _, v := range cv {
+				if vs[v] {
+					hit = true
+					break
+				}
+			}
+			if hit {
+				taken[i] = true
+				changed = true
+				out = append(out, c)
+				for _, v := range cv {
+					vs[v] = true
+				}
+			}
+		}
+	}
+	return out
+}
+
+func queryKey(cs []*sym.Term, extra *sym.Term) string {
+	ids := make([]int, len(cs))
+	for i, c := range cs {
+		ids[i] = c.ID
+	}
+	sort.Ints(ids)
+	b := make([]byte, 0, 6*len(ids)+8)
+	for _, id := range ids {
+		b = strconv.AppendInt(b, int64(id), 36)
+		b = append(b, ',')
+	}
+	b = append(b, '|')
+	if extra != nil {
+		b = strconv.AppendInt(b, int64(extra.ID), 36)
+	}
+	return string(b)
+}
+
+// feasible decides pc ∧ extra using only the conjuncts that share variables
+// with extra (the rest of pc is satisfiable on its own: the path is feasible),
+// with a per-worker cache of decided queries.
+func (m *Machine) feasible(extra *sym.Term) bool {
+	if extra == nil {
+		// whole-pc feasibility is only asked after adding a conjunct; check its closure
+		if len(m.pc) == 0 {
+			return true
+		}
+		last := m.pc[len(m.pc)-1]
+		return m.feasibleRel(last)
+	}
+	if k, v := m.implied(extra); k {
+		return v
+	}
+	return m.feasibleRel(extra)
+}
+
+func (m *Machine) feasibleRel(extra *sym.Term) bool {
+	cs := m.closure(extra)
+	inPC := m.pcSet[extra.ID]
+	key := queryKey(cs, extra)
+	if r, ok := m.qcache[key]; ok {
+		m.Stats.CacheHits++
+		return r
+	}
 	m.Stats.FeasQueries++
-	r := m.solver.Check(m.pc, extra)
+	var r smt.Result
+	if len(cs) > 60 {
+		if inPC {
+			r = m.solver.Check(m.pc, nil)
+		} else {
+			r = m.solver.Check(m.pc, extra)
+		}
+	} else {
+		q := cs
+		if !inPC {
+			q = append(append([]*sym.Term{}, cs...), extra)
+		}
+		r = m.solver.CheckIsolated(q)
+	}
 	if r == smt.Unknown {
 		m.Stats.Unknown++
 	}
-	return r != smt.Unsat
+	res := r != smt.Unsat
+	if len(m.qcache) < 2_000_000 {
+		m.qcache[key] = res
+	}
+	return res
 }
 
 // fork chooses one of mutually exclusive, jointly exhaustive conditions,
@@ -452,6 +601,9 @@ func (m *Machine) info(fn *ssa.Function) *fnInfo {
 	if r, ok := m.P.Redirects[name]; ok && fi.intrinsic == nil {
 		fi.redirect = r
 	}
+	if m.P.Summarize[name] || m.P.Summarize[fi.name] {
+		fi.summarize = true
+	}
 	m.fnInfo[fn] = fi
 	return fi
 }
@@ -476,6 +628,14 @@ func (m *Machine) callFn(fn *ssa.Function, args []Value, env []Value) Value {
 		}
 		m.notEnc("external function %s", fi.name)
 	}
+	if fi.summarize && m.lenient == 0 {
+		return m.callSummarized(fn, args, env)
+	}
+	return m.callFnBody(fn, args, env)
+}
+
+func (m *Machine) callFnBody(fn *ssa.Function, args []Value, env []Value) Value {
+	fi := m.info(fn)
 	m.depth++
 	if m.depth > 400 {
 		m.end("unwind", "call depth > 400 in "+fi.name)
